@@ -162,11 +162,19 @@ Proof.
 Qed.
 
 (* ---- the flow table meets the static conditions ---- *)
+(* what a failing call returns besides the error is no input of any handler: the program of a storage
+   variant is the program of the variant with the same optional interfaces that returns nothing *)
+Lemma handler_results_ignored : forall r sv f, handler r sv f = handler r (plain_storage sv) f.
+Proof. intros r sv f. destruct sv; reflexivity. Qed.
+
+Lemma goes_on_results_ignored : forall sv f, goes_on sv f = goes_on (plain_storage sv) f.
+Proof. intros sv f. destruct sv; reflexivity. Qed.
+
 Lemma handlers_fail_closed : forall r sv f, wf_flow f = true ->
   fail_closed_prog (closed_answer f) (excused f) (handler r sv f) = true.
 Proof.
-  intros r sv f Hwf.
-  destruct r, sv; destruct f as [c b rt m|c|c m|c b m|c b|c|c| |c s w|c|c b b'|c|c|c t b|c v| | |];
+  intros r sv f Hwf. rewrite (handler_results_ignored r sv f). unfold plain_storage.
+  destruct r, (ifaces_of sv); destruct f as [c b rt m|c|c m|c b m|c b|c|c| |c s w|c|c b b'|c|c|c t b|c v| | |];
     repeat match goal with
            | x : client |- _ => destruct x | x : bool |- _ => destruct x | x : rmode |- _ => destruct x | x : rtype |- _ => destruct x
            | x : subj |- _ => destruct x | x : want |- _ => destruct x | x : revtok |- _ => destruct x
@@ -177,8 +185,9 @@ Qed.
 
 Lemma handlers_strict : forall r sv f, goes_on sv f = false -> strict (handler r sv f) = true.
 Proof.
-  intros r sv f Hn.
-  destruct r, sv; destruct f as [c b rt m|c|c m|c b m|c b|c|c| |c s w|c|c b b'|c|c|c t b|c v| | |];
+  intros r sv f Hn. rewrite (handler_results_ignored r sv f). rewrite (goes_on_results_ignored sv f) in Hn.
+  unfold plain_storage in *.
+  destruct r, (ifaces_of sv); destruct f as [c b rt m|c|c m|c b m|c b|c|c| |c s w|c|c b b'|c|c|c t b|c v| | |];
     repeat match goal with
            | x : client |- _ => destruct x | x : bool |- _ => destruct x | x : rmode |- _ => destruct x | x : rtype |- _ => destruct x
            | x : subj |- _ => destruct x | x : want |- _ => destruct x | x : revtok |- _ => destruct x
@@ -453,6 +462,47 @@ Lemma failure_results_ignored : forall r f p,
   model (Req r SKeep f true p) = model (Req r SStd f true p).
 Proof. intros r f p. split; reflexivity. Qed.
 
+(* the general form: two storages offering the same optional interfaces are answered alike, whatever
+   each of them returns besides the error (nothing, typed nil pointers, empty objects, complete results) *)
+Lemma failure_results_shape_ignored : forall r sv sv' f w p,
+  ifaces_of sv = ifaces_of sv' -> model (Req r sv f w p) = model (Req r sv' f w p).
+Proof.
+  intros r sv sv' f w p H. unfold model. cbn [in_prog in_plan].
+  rewrite (handler_results_ignored r sv f), (handler_results_ignored r sv' f).
+  unfold plain_storage. rewrite H. reflexivity.
+Qed.
+
+(* spelled out for the answer: whatever accompanies the error, the model's answer to a well-formed
+   request outside the open findings is one response (never a panic, never a hang), the one the plain
+   storage gets, and when the failure was reached it is an error without credentials *)
+Lemma fail_closed_any_results : forall r sv f w p,
+  wf_flow f = true -> open_finding (Req r sv f w p) = false ->
+  exists h cls err creds j,
+    model (Req r sv f w p) = Obs h true cls err creds j /\
+    model (Req r (plain_storage sv) f w p) = Obs h true cls err creds j /\
+    (h = true -> is_failure p j = true ->
+     (cls = K302Err \/ cls = K4xx \/ cls = K5xx \/ (cls = KInactive /\ is_introspection f = true))
+     /\ (forall c, In c creds -> forbidden c = false)).
+Proof.
+  intros r sv f w p Hwf Hopen.
+  pose proof (fail_closed_partial (Req r sv f w p) Hwf Hopen) as Hs.
+  unfold spec, model in Hs. cbn [in_prog in_plan in_flow] in Hs.
+  exists (hit p (handler r sv f)), (r_cls (answer p (handler r sv f))), (r_err (answer p (handler r sv f))),
+         (r_creds (answer p (handler r sv f))), (journal p (handler r sv f)).
+  split; [reflexivity|]. split.
+  - unfold model. cbn [in_prog in_plan]. rewrite <- (handler_results_ignored r sv f). reflexivity.
+  - intros Hh Hf. rewrite Hh, Hf in Hs. cbn [andb] in Hs.
+    apply (closed_answer_spec f _ Hs).
+Qed.
+
+Lemma fail_closed_any_results_nonvacuous :
+  let i := Req RProvider SNil (FCallbackCode Web MDefault) false (PAt 1 (K BPlain false)) in
+  wf_input i = true /\ open_finding i = false /\ results_of SNil = RTypedNil /\
+  model i = Obs true true K4xx "" [] [MAuthRequestByID] /\
+  model (Req RLegacy SZero (FTokenCode Web2 true) true (PAt 2 (K BDeadline true)))
+  = model (Req RLegacy SStd (FTokenCode Web2 true) true (PAt 2 (K BDeadline true))).
+Proof. vm_compute. repeat split. Qed.
+
 (* ---- revocation: every value RevokeToken can fail with has a status ---- *)
 Definition revocation_resp (kd : kind) : resp :=
   R (if is_server (dcode kd) then K5xx else K4xx) (code_str (dcode kd)) [].
@@ -506,3 +556,28 @@ Proof.
   destruct (closed_answer_spec f a Hc) as [[H|[H|[H|[H Hi]]]] _]; auto; try contradiction.
   subst f. discriminate Hi.
 Qed.
+
+(* ---- introspection: a reached failure is never answered by the document under construction ---- *)
+Lemma introspection_failure_inactive : forall r sv c p,
+  hit p (handler r sv (FIntrospect c)) = true ->
+  let a := answer p (handler r sv (FIntrospect c)) in
+  (r_cls a = K4xx \/ r_cls a = KInactive) /\ r_creds a = [].
+Proof.
+  intros r sv c p Hhit a.
+  assert (Hall : fail_closed_prog (fun x => match r_cls x with K4xx | KInactive => true | _ => false end
+                                            && match r_creds x with [] => true | _ => false end)
+                   (fun _ _ => false) (handler r sv (FIntrospect c)) = true).
+  { destruct r, sv, c; vm_compute; reflexivity. }
+  pose proof (fail_closed_run _ _ _ Hall p Hhit (fun _ _ _ => eq_refl)) as H.
+  fold a in H. apply andb_true_iff in H as [H1 H2]. split.
+  - destruct (r_cls a); try discriminate H1; auto.
+  - destruct (r_creds a); [reflexivity | discriminate H2].
+Qed.
+
+Lemma introspection_failure_inactive_nonvacuous :
+  results_of SFull = RFull /\
+  hit (PAt 2 (K BPlain false)) (handler RProvider SFull (FIntrospect Web)) = true /\
+  model (Req RProvider SFull (FIntrospect Web) false (PAt 2 (K BPlain false)))
+  = Obs true true KInactive "" [] [MAuthorizeClientIDSecret; MSetIntrospectionFromToken] /\
+  r_creds (answer PNone (handler RProvider SFull (FIntrospect Web))) = [CClaims; CActive].
+Proof. vm_compute. repeat split. Qed.
